@@ -711,6 +711,17 @@ func concatOf(segs []interface{}) value {
 	return r
 }
 
+// sameInt: two integer values are equal textually, or both are pinned to the
+// same number by the path condition's intervals.
+func (p *Path) sameInt(a, b value) bool {
+	if tInt(a) == tInt(b) {
+		return true
+	}
+	al, ah := p.ivOf(a)
+	bl, bh := p.ivOf(b)
+	return al != nil && ah != nil && bl != nil && bh != nil && al.Cmp(ah) == 0 && bl.Cmp(bh) == 0 && al.Cmp(bl) == 0
+}
+
 // mkSubstr: s[off:off+n] assuming bounds were already checked.
 func (p *Path) mkSubstr(s, off, n value) value {
 	sc, sok := s.(string)
@@ -724,8 +735,16 @@ func (p *Path) mkSubstr(s, off, n value) value {
 	}
 	if ook && oc == 0 {
 		// s[0:len(s)] == s
-		if tInt(n) == tInt(p.mkLen(s)) {
+		if p.sameInt(n, p.mkLen(s)) {
 			return s
+		}
+	}
+	// a concrete range that lies inside the leading concrete segment
+	if ook && nok {
+		if segs := segmentsOf(s); len(segs) > 1 {
+			if first, ok := segs[0].(string); ok && oc+nc <= int64(len(first)) {
+				return first[oc : oc+nc]
+			}
 		}
 	}
 	// prefix that drops k bytes of a concrete last segment
@@ -735,7 +754,7 @@ func (p *Path) mkSubstr(s, off, n value) value {
 			if last, ok := segs[len(segs)-1].(string); ok {
 				total := p.mkLen(s)
 				for k := 1; k <= len(last); k++ {
-					if tInt(n) == tInt(p.mkSub(total, int64(k))) {
+					if p.sameInt(n, p.mkSub(total, int64(k))) {
 						return mkConcat(concatOf(segs[:len(segs)-1]), last[:len(last)-k])
 					}
 				}
@@ -749,7 +768,7 @@ func (p *Path) mkSubstr(s, off, n value) value {
 			var acc value = int64(0)
 			for k, sg := range segs {
 				acc = p.mkAdd(acc, p.mkLen(sg))
-				if tInt(acc) == tInt(n) {
+				if p.sameInt(acc, n) {
 					return concatOf(segs[:k+1])
 				}
 			}
@@ -767,7 +786,7 @@ func (p *Path) mkSubstr(s, off, n value) value {
 						continue
 					}
 					// the cut falls inside sg if acc <= n <= next always
-					if k > 0 && p.validCond(p.mkIntCmp("<=", acc, n)) && p.validCond(p.mkIntCmp("<=", n, next)) {
+					if p.validCond(p.mkIntCmp("<=", acc, n)) && p.validCond(p.mkIntCmp("<=", n, next)) {
 						piece := p.mkSubstr(sg, int64(0), p.mkSub(n, acc))
 						return mkConcat(concatOf(segs[:k]), piece)
 					}
@@ -781,9 +800,9 @@ func (p *Path) mkSubstr(s, off, n value) value {
 		var acc value = int64(0)
 		for k, sg := range segs[:len(segs)-1] {
 			acc = p.mkAdd(acc, p.mkLen(sg))
-			if tInt(acc) == tInt(off) {
+			if p.sameInt(acc, off) {
 				rest := concatOf(segs[k+1:])
-				if tInt(p.mkLen(rest)) == tInt(n) {
+				if p.sameInt(p.mkLen(rest), n) {
 					return rest
 				}
 				return p.mkSubstr(rest, int64(0), n)
@@ -800,7 +819,7 @@ func (p *Path) mkSubstr(s, off, n value) value {
 				acc = next
 				continue
 			}
-			if k > 0 && p.validCond(p.mkIntCmp("<=", acc, off)) {
+			if p.validCond(p.mkIntCmp("<=", acc, off)) {
 				in := p.mkSub(off, acc)
 				piece := p.mkSubstr(sg, in, p.mkSub(p.mkLen(sg), in))
 				rest := mkConcat(piece, concatOf(segs[k+1:]))
